@@ -450,6 +450,19 @@ def schema_violations():
             v.append((f"{key}-nonident-{bad!r}", cid, setv(key, bad), None))
         for kw in ["class", "None", "lambda"]:
             v.append((f"{key}-keyword-{kw}", cid, setv(key, kw), None))   # former F16, regression
+    # /repo 18e873d: names bound by the imports of the generated module, and the two names must differ
+    for key, cid in [("schema_variable_name", "schema-variable-not-reserved"),
+                     ("type_map_variable_name", "type-map-variable-not-reserved")]:
+        for bad in ["GraphQLSchema", "TypeMap", "cast", "List", "Undefined", "GraphQLObjectType"]:
+            v.append((f"{key}-reserved-{bad}", cid, setv(key, bad), None))
+    v.append(("variable-names-equal-default", "variable-names-differ", setv("type_map_variable_name", "schema", ["different"]), None))
+    v.append(("variable-names-equal-default2", "variable-names-differ", setv("schema_variable_name", "type_map", ["different"]), None))
+
+    def both_same(c):
+        sec(c)["schema_variable_name"] = "same_name"
+        sec(c)["type_map_variable_name"] = "same_name"
+        return ["different"]
+    v.append(("variable-names-equal", "variable-names-differ", both_same, None))
     out = []
     for pre in (False, True):
         for kind, cid, mut, cls in v:
@@ -702,6 +715,16 @@ def duplicate_name_cases():
         ("client-file-equals-fragments", lambda c: sec(c).update({"client_file_name": "fragments"})),
         ("include-named-exceptions", lambda c: (c["files"].__setitem__("extra/exceptions.py", "x=1\n"),
                                                  sec(c).__setitem__("files_to_include", ["{ROOT}/extra/exceptions.py"]))),
+        # /repo d2e37b3: __init__.py and the custom-operation modules are part of the check
+        ("include-named-init", lambda c: (c["files"].__setitem__("extra/__init__.py", "x=1\n"),
+                                           sec(c).__setitem__("files_to_include", ["{ROOT}/extra/__init__.py"]))),
+        ("include-named-custom-fields", lambda c: (c["files"].__setitem__("extra/custom_fields.py", "x=1\n"),
+                                                    sec(c).update({"files_to_include": ["{ROOT}/extra/custom_fields.py"],
+                                                                   "enable_custom_operations": True}))),
+        ("op-named-custom-queries", lambda c: (c["files"].__setitem__("queries.graphql", "query CustomQueries { hello }\n"),
+                                                sec(c).__setitem__("enable_custom_operations", True))),
+        ("two-includes-same-name", lambda c: (c["files"].__setitem__("extra/m.py", "x=1\n"), c["files"].__setitem__("extra2/m.py", "x=2\n"),
+                                               sec(c).__setitem__("files_to_include", ["{ROOT}/extra/m.py", "{ROOT}/extra2/m.py"]))),
     ]
     for name, mut in specs:
         for pre in (False, True):
@@ -712,11 +735,23 @@ def duplicate_name_cases():
             c.update({"id": f"duplicate/{name}" + ("+pre" if pre else ""), "expect": "invalid", "names": ["Duplicated"],
                       "cls": None, "group": "duplicate-names", "kind": name})
             out.append(c)
-    # two operations mapping to one module name are NOT a duplicate for the check (dict overwrite): accepted
-    c = base_case()
-    c["files"]["queries.graphql"] = "query GetA { hello }\nquery getA { me { id } }\n"
-    c.update({"id": "observe/ops-same-module", "expect": "observe", "names": [], "cls": None, "group": "observe",
-              "kind": "ops-same-module"})
+    # former observation (two operations mapping to one module overwrote each other silently), fixed in
+    # /repo d2e37b3: must be refused, typed, naming the file, before anything is written
+    for pre in (False, True):
+        c = base_case()
+        c["files"]["queries.graphql"] = "query GetA { hello }\nquery getA { me { id } }\n"
+        if pre:
+            o_preexisting(c)
+        c.update({"id": "duplicate/ops-same-module" + ("+pre" if pre else ""), "expect": "invalid",
+                  "names": ["Duplicated", "get_a.py"], "cls": None, "group": "duplicate-names", "kind": "ops-same-module"})
+        out.append(c)
+    c = base_case()      # ... also when the colliding operations live in different files
+    del c["files"]["queries.graphql"]
+    c["files"]["qs/a.graphql"] = "query GetHTTPData { hello }"
+    c["files"]["qs/b.graphql"] = "query get_http_data { me { id } }"
+    sec(c)["queries_path"] = "{ROOT}/qs"
+    c.update({"id": "duplicate/ops-same-module-two-files", "expect": "invalid", "names": ["Duplicated", "get_http_data.py"],
+              "cls": None, "group": "duplicate-names", "kind": "ops-same-module"})
     out.append(c)
     return out
 
